@@ -348,7 +348,7 @@ theorem del_prim (ph : Bytes → Option Bytes) (a : AImg) (H : a.PrimInv) (sel :
     (a.del ph sel topt now).1.PrimInv := by
   unfold AImg.del
   split
-  · split <;> exact H
+  · exact H
   · split
     · exact H
     · obtain ⟨h1, h2, h3⟩ := H
